@@ -47,7 +47,10 @@ SPEC = dict(
          "Part 2 (real timers, oracle only): two real connections, all four role assignments x 1-2 host candidates each (127.0.0.1, "
          "127.0.0.2) x candidate order x who starts, an attacker injecting forged datagrams meanwhile; through a relaying proxy socket that "
          "drops a chosen subset of the four first transmissions (5 subsets quick, all 16 x both roles thorough): both must signal connected "
-         "once, forged traffic must stay unanswered, random payloads of 1..8000 bytes must arrive byte for byte in both directions. "
+         "once, forged traffic must stay unanswered, random payloads of 1..8000 bytes must arrive byte for byte in both directions, plus a structured battery: "
+         "cookie-less STUN look-alikes (bytes 2..3 = size-20) for every size 20..200, RTP streams across the critical sequence numbers, "
+         "header-only packets, payloads with the magic cookie that fail the length/type test (key C15:application-datagram-not-delivered); "
+         "the same look-alikes are in the single-datagram alphabet and random stream of part 1, where the model applies its own isStun rule. "
          "Library AND harness are built with ASan+UBSan.",
     trusted_base=[
         "Lean 4.33.0 kernel; axioms per theorem listed under coverage.theorems (subset of propext, Classical.choice, Quot.sound)",
@@ -79,7 +82,7 @@ SPEC = dict(
         "attacker = anyone who can send UDP datagrams to the component's port and read what is sent to its own address; it does not "
         "know either session password; sequences may nevertheless hand it the exact transaction id of the component's latest check "
         "('latest id'), i.e. an on-path observer is covered for the no-effect claim",
-        "application payloads that are themselves well-formed STUN messages (magic cookie + matching length) are demultiplexed as STUN by "
+        "application payloads that are themselves STUN messages by the demultiplexing rule (magic cookie + matching length + non-zero type) are demultiplexed as STUN by "
         "design (RFC 5245/7983); counted (stun_shaped_payload_not_delivered), not judged",
         "two agents configured with the SAME role never connect: requests are dropped with 'Role conflict' and RFC 5245 7.2.1.1 "
         "(487 / tie-breaker / role switch) is not implemented; recorded (theorem role_conflict_request_dropped, stats role_conflict_*), "
@@ -111,7 +114,9 @@ SPEC = dict(
                "assignment x start order x triggered-check gap x an extra unreachable candidate per side and its position x loss of any subset of "
                "the four first transmissions: connected after three retransmission periods, kernel-evaluated) and connected_is_stable (no "
                "operation ever disconnects); application_datagrams_carried / honest_pair_carries_datagram_lists: arbitrary payload LISTS arrive "
-               "unchanged and in order in both directions.",
+               "unchanged and in order in both directions. Demultiplexing on raw bytes (isStun = size/length/type test AND magic cookie, "
+               "as coded): isStun_iff, payload_without_cookie_is_not_stun, non_stun_payload_delivered, application_payloads_carried; the only "
+               "payloads not carried are those that are STUN by the rule (stun_shaped_payload_is_processed_as_stun; inherent to RFC 5389/7983).",
     level_note="Proved about the hand-written model; model-to-code tie is differential on a real component over loopback UDP (exhaustive "
                "single datagrams / depth 2-3, interleavings at every point of honest negotiations, sampled beyond). Modelled: peer checks, STUN-server discovery (acceptance rule), close(), separately set / replaced remote "
                "credentials, fallback pair, retransmission and time-out. NOT modelled: the TURN allocation (forged datagrams are injected on "
